@@ -5,7 +5,7 @@
 (* action binds the logged fields and evaluates the property rules of       *)
 (* DESIGN.md Appendix B against the Ref layer.                              *)
 (***************************************************************************)
-EXTENDS TraceBase, Header, Codes, NameWire, NameText
+EXTENDS TraceBase, Message, NameText
 
 VARIABLES l          \* index of the next event to consume
 vars == <<l>>
@@ -161,6 +161,82 @@ TraceNameRel ==
   /\ Rule(l, "SuffixAlgebra", Ev.ll = IsLinkLocal(Ev.x), <<"is_link_local", Ev.x, Ev.ll>>)
 
 -----------------------------------------------------------------------------
+(* Parse: the crate parsed the byte string e.b.                               *)
+(*   e.out = <<"ok", pkt>> | <<"err", kind>> | <<"panic", where>>             *)
+(*   e.steps = loop iterations counted by the work-counter hook               *)
+(*   e.peak  = peak heap bytes requested during the call                      *)
+FirstDiff(x, y) ==
+  IF \E i \in 1 .. Len(x) : i > Len(y) \/ x[i] # y[i]
+  THEN CHOOSE i \in 1 .. Len(x) : (i > Len(y) \/ x[i] # y[i]) /\ \A j \in 1 .. i - 1 : j <= Len(y) /\ x[j] = y[j]
+  ELSE Len(x) + 1
+
+PktDiff(p, q) ==
+  IF DOMAIN p # DOMAIN q THEN "fields"
+  ELSE IF \E k \in DOMAIN p : p[k] # q[k] THEN CHOOSE k \in DOMAIN p : p[k] # q[k] ELSE "none"
+
+\* the domain of values the crate can represent: must-accept obligations are limited to it
+InCrateDomain(ref) ==
+  /\ Encodable([ref.pkt EXCEPT !.opcode = IF @ = -1 THEN 0 ELSE @, !.rcode = IF @ = -1 THEN 0 ELSE @])
+  /\ Cardinality({i \in 1 .. Len(ref.raw.ar) : ref.raw.ar[i].type = 41}) <= 1
+  /\ \A s \in {ref.raw.an, ref.raw.ns} : \A i \in 1 .. Len(s) : s[i].type # 41
+
+\* resource bounds of C01 (DESIGN.md section 5, C01): linear in the input length
+StepBound(n) == 64 * n + 1024
+HeapBoundOf(n) == 2048 * n + 65536
+
+TraceParse ==
+  /\ Ev.ev = "Parse"
+  /\ LET b == Ev.b
+         out == Ev.out
+         ref == RefDecode(b) IN
+     /\ Rule(l, "NoPanic", out[1] # "panic", <<"Packet::parse", out>>)
+     /\ Rule(l, "NoHang", Ev.steps <= StepBound(Len(b)), <<"steps", Ev.steps, "len", Len(b)>>)
+     /\ Rule(l, "HeapBound", Ev.peak <= HeapBoundOf(Len(b)), <<"peak", Ev.peak, "len", Len(b)>>)
+     /\ Rule(l, "EnvelopeErr", (~ref.ok) => out[1] = "err", <<"ref", ref.why, "got", out[1]>>)
+     /\ Rule(l, "ParseEqRef", out[1] = "ok" => (ref.ok /\ out[2] = ref.pkt),
+             <<"ref", IF ref.ok THEN PktDiff(out[2], ref.pkt) ELSE ref.why>>)
+     /\ Rule(l, "MustAccept",
+             (ref.ok /\ ref.exact /\ ref.end = Len(b) /\ InCrateDomain(ref) /\ PlainReencode(b, ref) = b)
+               => out[1] = "ok",
+             <<"canonical-plain-message-rejected", out>>)
+
+(* RoundTrip: a packet e.pkt assembled through the public constructors was     *)
+(* serialised plain (e.plain) and compressed (e.comp) and both were parsed     *)
+(* back (e.pp, e.pc).  outs: <<"ok", bytes>> / <<"ok", pkt>> / <<"err", k>> /  *)
+(* <<"panic", where>>                                                          *)
+TraceRoundTrip ==
+  /\ Ev.ev = "RoundTrip"
+  /\ LET p == Ev.pkt
+         canon == RefEncodePlain(p)
+         plainOk == Ev.plain[1] = "ok"
+         compOk == Ev.comp[1] = "ok"
+         dc == IF compOk THEN RefDecode(Ev.comp[2]) ELSE MErr("n/a") IN
+     /\ Encodable(p)
+     /\ Rule(l, "NoPanic", "panic" \notin {Ev.plain[1], Ev.comp[1], Ev.pp[1], Ev.pc[1]}, <<"roundtrip", Ev.plain[1], Ev.comp[1], Ev.pp[1], Ev.pc[1]>>)
+     /\ Rule(l, "BuildOk", plainOk /\ compOk, <<Ev.plain[1], Ev.comp[1]>>)
+     /\ Rule(l, "PlainCanonical", plainOk => Ev.plain[2] = canon,
+             <<"first-diff-at", IF plainOk THEN FirstDiff(canon, Ev.plain[2]) ELSE 0, "canon-len", Len(canon)>>)
+     /\ Rule(l, "RoundTrip", plainOk => (Ev.pp[1] = "ok" /\ Ev.pp[2] = p),
+             <<"plain", Ev.pp[1], IF Ev.pp[1] = "ok" THEN PktDiff(Ev.pp[2], p) ELSE "-">>)
+     /\ Rule(l, "CompDecodes", compOk => (dc.ok /\ dc.exact /\ dc.end = Len(Ev.comp[2]) /\ dc.pkt = p),
+             <<"ref-decode-of-compressed", IF dc.ok THEN PktDiff(dc.pkt, p) ELSE dc.why>>)
+     /\ Rule(l, "CompShorter", (plainOk /\ compOk) => Len(Ev.comp[2]) <= Len(Ev.plain[2]),
+             <<"comp", IF compOk THEN Len(Ev.comp[2]) ELSE 0, "plain", IF plainOk THEN Len(Ev.plain[2]) ELSE 0>>)
+     /\ Rule(l, "CompRoundTrip", compOk => (Ev.pc[1] = "ok" /\ Ev.pc[2] = p),
+             <<"comp", Ev.pc[1], IF Ev.pc[1] = "ok" THEN PktDiff(Ev.pc[2], p) ELSE "-">>)
+
+(* Reparse (C11): bytes e.b accepted by the parser (e.p1), re-serialised plain  *)
+(* (e.b2) and compressed (e.b3), each parsed again (e.p2, e.p3)                 *)
+TraceReparse ==
+  /\ Ev.ev = "Reparse"
+  /\ Ev.p1[1] = "ok"
+  /\ Rule(l, "NoPanic", "panic" \notin {Ev.b2[1], Ev.b3[1], Ev.p2[1], Ev.p3[1]}, <<"reparse", Ev.b2[1], Ev.b3[1], Ev.p2[1], Ev.p3[1]>>)
+  /\ Rule(l, "ReparseEqual", Ev.b2[1] = "ok" /\ Ev.p2[1] = "ok" /\ Ev.p2[2] = Ev.p1[2],
+          <<"plain", Ev.b2[1], Ev.p2[1], IF Ev.p2[1] = "ok" THEN PktDiff(Ev.p2[2], Ev.p1[2]) ELSE "-">>)
+  /\ Rule(l, "ReparseEqual", Ev.b3[1] = "ok" /\ Ev.p3[1] = "ok" /\ Ev.p3[2] = Ev.p1[2],
+          <<"comp", Ev.b3[1], Ev.p3[1], IF Ev.p3[1] = "ok" THEN PktDiff(Ev.p3[2], Ev.p1[2]) ELSE "-">>)
+
+-----------------------------------------------------------------------------
 Init == l = 1
 
 Next == /\ l <= Len(Rec)
@@ -170,6 +246,7 @@ Next == /\ l <= Len(Rec)
            \/ TraceFlagOps
            \/ TraceNameDecode
            \/ TraceNameNew \/ TraceLabelNew \/ TraceNameRel
+           \/ TraceParse \/ TraceRoundTrip \/ TraceReparse
            \/ TraceCodeConv \/ TraceMnemonics \/ TraceMatchType \/ TraceMatchClass
 
 Spec == Init /\ [][Next]_vars
